@@ -386,6 +386,57 @@ def i_time():
     return NotImplemented
 
 
+import urllib.parse as _up
+
+
+def _q_byte(b):
+    """percent-encoding of one byte with safe='' -> list of chars"""
+    if isinstance(b, int):
+        return list(_up.quote(bytes([b]), safe=""))
+    t = b.t
+    unres = z3.Or(z3.And(t >= 48, t <= 57), z3.And(t >= 65, t <= 90), z3.And(t >= 97, t <= 122), t == 95, t == 46, t == 45, t == 126)
+    if core.CTX.branch(unres):
+        return [SymChar(b)]
+    hi, lo = b // 16, b % 16
+    hx = lambda n: SymChar(SymInt(S(z3.If(n.t < 10, n.t + 48, n.t + 55)), ub=128))
+    return ["%", hx(hi), hx(lo)]
+
+
+@intrinsic(_up.quote)
+def i_quote(x, safe="/", encoding=None, errors=None):
+    if not isinstance(x, Sym):
+        return NotImplemented
+    if safe != "":
+        raise Unsupported("quote with safe characters")
+    out = []
+    if isinstance(x, SymSeq):
+        for b in x.items:
+            if isinstance(b, Piece):
+                raise Unsupported("quote of abstract bytes")
+            out += _q_byte(b if isinstance(b, int) else b)
+        return SymStr(out)
+    chars = [x] if isinstance(x, SymChar) else list(x.chars)
+    C = core.CTX
+    for ch in chars:
+        if isinstance(ch, str):
+            out += list(_up.quote(ch, safe=""))
+            continue
+        c = ch.code
+        if C.branch(z3.And(c.t >= 0xD800, c.t <= 0xDFFF)):
+            raise UnicodeEncodeError("utf-8", "?", 0, 1, "surrogates not allowed")
+        if C.branch(c.t < 0x80):
+            bs = [c]
+        elif C.branch(c.t < 0x800):
+            bs = [192 + c // 64, 128 + c % 64]
+        elif C.branch(c.t < 0x10000):
+            bs = [224 + c // 4096, 128 + (c // 64) % 64, 128 + c % 64]
+        else:
+            bs = [240 + c // 262144, 128 + (c // 4096) % 64, 128 + (c // 64) % 64, 128 + c % 64]
+        for b in bs:
+            out += _q_byte(b)
+    return SymStr(out)
+
+
 def i_join(sep, it):
     items = list(it)
     if any(isinstance(x, (SymChar, SymStr)) for x in items):
